@@ -67,3 +67,60 @@ pub fn ref_varint(len: usize) -> ([u8; 4], usize) {
         ([b0 | 0x80, b1 | 0x80, b2 | 0x80, b3], 4)
     }
 }
+
+/// Stubs that give `tracing` events empty bodies (logging is never the subject; the real
+/// dispatch path goes through thread-locals whose destructor registration Kani cannot compile).
+/// Part of the claim: "no tracing subscriber is installed / events are disabled".
+pub mod tstub {
+    pub fn never(_c: &tracing::callsite::DefaultCallsite) -> tracing::subscriber::Interest {
+        tracing::subscriber::Interest::never()
+    }
+    pub fn not_enabled(_m: &tracing::Metadata<'static>, _i: tracing::subscriber::Interest) -> bool {
+        false
+    }
+    pub fn no_dispatch<'a>(_m: &'static tracing::Metadata<'static>, _f: &'a tracing::field::ValueSet<'_>)
+    where
+        'a: 'a,
+    {
+    }
+}
+
+/// `#[kani::proof]` harness with the three tracing stubs attached.
+#[macro_export]
+macro_rules! proof_tracing_off {
+    ($unwind:literal, $name:ident, $body:block) => {
+        #[kani::proof]
+        #[kani::unwind($unwind)]
+        #[kani::stub(tracing::callsite::DefaultCallsite::interest, crate::util::tstub::never)]
+        #[kani::stub(tracing::__macro_support::__is_enabled, crate::util::tstub::not_enabled)]
+        #[kani::stub(tracing::Event::dispatch, crate::util::tstub::no_dispatch)]
+        pub fn $name() $body
+    };
+}
+
+/// parking_lot's contended paths park the thread through a thread-local with a destructor
+/// (not compilable by Kani).  Harnesses are single-threaded, so the slow paths are
+/// unreachable at run time; the stubs turn "reached" into a failed assertion.
+pub mod plstub {
+    pub fn lock_slow(_m: &parking_lot::RawMutex, _t: Option<std::time::Instant>) -> bool {
+        panic!("parking_lot lock contended in a single-threaded harness");
+    }
+    pub fn unlock_slow(_m: &parking_lot::RawMutex, _force_fair: bool) {
+        panic!("parking_lot unlock_slow in a single-threaded harness");
+    }
+}
+
+/// harness with tracing events off and parking_lot slow paths cut
+#[macro_export]
+macro_rules! proof_router_leaf {
+    ($unwind:literal, $name:ident, $body:block) => {
+        #[kani::proof]
+        #[kani::unwind($unwind)]
+        #[kani::stub(tracing::callsite::DefaultCallsite::interest, crate::util::tstub::never)]
+        #[kani::stub(tracing::__macro_support::__is_enabled, crate::util::tstub::not_enabled)]
+        #[kani::stub(tracing::Event::dispatch, crate::util::tstub::no_dispatch)]
+        #[kani::stub(parking_lot::RawMutex::lock_slow, crate::util::plstub::lock_slow)]
+        #[kani::stub(parking_lot::RawMutex::unlock_slow, crate::util::plstub::unlock_slow)]
+        pub fn $name() $body
+    };
+}
